@@ -4,12 +4,15 @@ import Mathlib.Analysis.SpecialFunctions.Trigonometric.Basic
 import Mathlib.Algebra.Order.Floor.Ring
 import Mathlib.Tactic.SplitIfs
 import Mathlib.Tactic.Positivity
+import ImathVerif.Lemmas.C08Lemmas
+import Mathlib.Analysis.SpecialFunctions.Sqrt
 /-!
 C11, analytic part: the real functions satisfy the hypotheses of the algebraic theorems
 (non-vacuity), the hand model of `angleMod` lands in `[-π, π]` and is congruent mod 2π, and the
 two-argument arctangent on ℝ.
 -/
 set_option linter.unusedSectionVars false
+set_option linter.unusedSimpArgs false
 namespace ImathVerif.Euler
 open ImathVerif Real
 
@@ -182,5 +185,55 @@ theorem sinM_cosM_angleMod_hyps :
     simp only [cosM, hk]
     rw [show (t + (d + (k : ℝ) * (2 * mpi))) * (π / mpi) = (t + d) * (π / mpi) + (k : ℝ) * (2 * π) by field_simp; ring,
       Real.cos_add_int_mul_two_pi]
+
+/-! ## two-argument arctangent and the inverse direction `extract (toMatrix33 a) = a`
+
+Over ℝ with `Real.sin`, `Real.cos`, `Real.sqrt` and `atan2R y x = arg (x + i y)`, on the OPEN principal
+range of each order: first and last angle in (-π, π); middle angle in (-π/2, π/2) for the non-repeated
+orders, in (0, π) for the parity-even and (-π, 0) for the parity-odd repeated-axis orders (away from
+gimbal lock).  The per-order theorems are in Props/C11.lean (section 8). -/
+
+/-- two-argument arctangent on ℝ: the argument of `x + i y` -/
+noncomputable def atan2R (y x : ℝ) : ℝ := Complex.arg ⟨x, y⟩
+
+theorem atan2R_polar (r θ : ℝ) (hr : 0 < r) (hθ : θ ∈ Set.Ioc (-π) π) :
+    atan2R (r * Real.sin θ) (r * Real.cos θ) = θ := by
+  unfold atan2R
+  have : (⟨r * Real.cos θ, r * Real.sin θ⟩ : ℂ) = (r : ℂ) * (Complex.cos θ + Complex.sin θ * Complex.I) := by
+    apply Complex.ext <;> simp [Complex.cos_ofReal_re, Complex.sin_ofReal_re, Complex.cos_ofReal_im, Complex.sin_ofReal_im]
+  rw [this]
+  exact Complex.arg_mul_cos_add_sin_mul_I hr hθ
+
+/-- `atan2 (A, B) = θ` when `(B, A) = r (cos θ, sin θ)` with `r > 0`, `θ ∈ (-π, π]` -/
+theorem atan2R_eq {A B : ℝ} (r θ : ℝ) (hr : 0 < r) (hθ : θ ∈ Set.Ioc (-π) π)
+    (hA : A = r * Real.sin θ) (hB : B = r * Real.cos θ) : atan2R A B = θ := by
+  rw [hA, hB]; exact atan2R_polar r θ hr hθ
+
+/-- `atan2 (A, B) = -θ` when `(B, A) = r (cos θ, -sin θ)` with `r > 0`, `θ ∈ [-π, π)` -/
+theorem atan2R_eq_neg {A B : ℝ} (r θ : ℝ) (hr : 0 < r) (hθ : θ ∈ Set.Ico (-π) π)
+    (hA : A = -(r * Real.sin θ)) (hB : B = r * Real.cos θ) : atan2R A B = -θ := by
+  apply atan2R_eq r (-θ) hr
+  · constructor <;> [linarith [hθ.2]; linarith [hθ.1]]
+  · rw [hA, Real.sin_neg]; ring
+  · rw [hB, Real.cos_neg]
+
+theorem sqrt_eq_of_sq {u c : ℝ} (hc : 0 ≤ c) (hu : u = c ^ 2) : √u = c := by rw [hu]; exact Real.sqrt_sq hc
+
+theorem Ioo_sub_Ioc {y : ℝ} (hy : y ∈ Set.Ioo (-(π / 2)) (π / 2)) : y ∈ Set.Ioc (-π) π :=
+  ⟨by linarith [hy.1, Real.pi_pos], by linarith [hy.2, Real.pi_pos]⟩
+theorem Ioo_sub_Ico {y : ℝ} (hy : y ∈ Set.Ioo (-(π / 2)) (π / 2)) : y ∈ Set.Ico (-π) π :=
+  ⟨by linarith [hy.1, Real.pi_pos], by linarith [hy.2, Real.pi_pos]⟩
+
+theorem real_hsqrt : ∀ x : ℝ, 0 ≤ x → Real.sqrt x * Real.sqrt x = x ∧ 0 ≤ Real.sqrt x :=
+  fun x hx => ⟨Real.mul_self_sqrt hx, Real.sqrt_nonneg x⟩
+
+/-- `Vec3::length()` of a vector whose squares sum to 1 -/
+theorem V3_length_unit (tmin : ℝ) (v : V3 ℝ) (h : v.x * v.x + v.y * v.y + v.z * v.z = 1) :
+    Gen.V3.length tmin Real.sqrt v = 1 := by
+  rw [C08.V3_length_eq tmin real_hsqrt v, h, Real.sqrt_one]
+
+theorem V2_length_unit (tmin : ℝ) (v : V2 ℝ) (h : v.x * v.x + v.y * v.y = 1) :
+    Gen.V2.length tmin Real.sqrt v = 1 := by
+  rw [C08.V2_length_eq tmin real_hsqrt v, h, Real.sqrt_one]
 
 end ImathVerif.Euler
